@@ -22,7 +22,9 @@ import (
 // apart, and each suspect is judged alone by TestRelease's oracle on a fresh process.
 
 var (
-	fillLeads = [][]byte{nil, {0x1b}, {0x1b, '['}, {0xff, 0xfa}, {'"'}, {'<'}}
+	fillLeads = [][]byte{nil, {0x1b}, {0x1b, '['}, {0xff, 0xfa}, {'"'}, {'<'},
+		// inside an open bracketed paste (seed C09-r5-1: the full-buffer guard skipped there)
+		[]byte("\x1b[200~"), []byte("\x1b[200~\x1b")}
 	fillBytes = []byte{0x00, ' ', '0', ';', 0x1b, 0x7f, 0xff, 'A', '\r', ','}
 	fillLens  = []int{255, 256, 257, 1024, 4097, 65536}
 )
@@ -135,7 +137,7 @@ func TestBufferFill(t *testing.T) {
 	if vlib.Replaying() {
 		return // reported and replayed as TestRelease cases
 	}
-	r.Rule("buffer-fill sweep: per TCP service, {no lead, ESC, ESC[, IAC SB, quote, <} x 10 fill bytes x run lengths {255, 256, 257, 1024, 4097, 65536} inserted as a unit of its own at the start and before one drawn unit of a generated dialogue; plus every decimal number of the dialogue (first four) announced as 2^16, 2^20, 2^31-1, 2^32, 2^63-1 and the client leaving; all cases of one service run concurrently on a fresh child; a batch that leaves open connections, goroutines in honeytrap frames or a busy process is bisected and every remaining suspect is judged alone by TestRelease's oracle; services are spread over the shards; distinct by script")
+	r.Rule("buffer-fill sweep: per TCP service, {no lead, ESC, ESC[, IAC SB, quote, <, paste-start ESC[200~, paste-start + ESC} x 10 fill bytes x run lengths {255, 256, 257, 1024, 4097, 65536} inserted as a unit of its own at the start and before one drawn unit of a generated dialogue; plus every decimal number of the dialogue (first four) announced as 2^16, 2^20, 2^31-1, 2^32, 2^63-1 and the client leaving; all cases of one service run concurrently on a fresh child; a batch that leaves open connections, goroutines in honeytrap frames or a busy process is bisected and every remaining suspect is judged alone by TestRelease's oracle; services are spread over the shards; distinct by script")
 	shard, shards := r.Shard()
 	for i, service := range svc.AllServices {
 		if i%shards != shard || !svc.PortOf(service).TCP {
